@@ -101,6 +101,10 @@ def build(run):
         # a component of a tensor-valued conditional (the condition is scalar, the branches are not)
         ("component of a vector-valued conditional", conditional(gt(f, 0), u, v)[1]), ("component of a matrix-valued conditional", conditional(lt(f, g), A, B)[0, 1] * g),
         ("vector-valued conditional contracted", conditional(gt(f, g), u, v)[i] * u[i]),
+        # tensor-valued expressions evaluated with an explicit component argument: e(x, mapping, component)
+        ("tensor-valued: x", x), ("tensor-valued: 2*u", 2 * u), ("tensor-valued: u + v", u + v), ("tensor-valued: as_vector([f*g, f+g])", as_vector([f * g, f + g])),
+        ("tensor-valued: outer(u, v)", outer(u, v)), ("tensor-valued: grad(f)", grad(f)), ("tensor-valued: A*u", A * u), ("tensor-valued: A.T", A.T),
+        ("tensor-valued: conditional(f > 0, u, v)", conditional(gt(f, 0), u, v)), ("tensor-valued: grad(u)", grad(u)), ("tensor-valued: A", A),
         # three space dimensions (fields on a tetrahedron mesh)
         ("curl 3d [0]", ufl.curl(u3)[0]), ("curl 3d [1]", ufl.curl(u3)[1]), ("curl 3d [2]", ufl.curl(u3)[2]), ("curl(f3*u3) . v3", dot(ufl.curl(f3 * u3), v3)),
         ("div 3d", div(u3 * f3)), ("grad 3d [2]", grad(f3 * g3)[2]), ("cross 3d", cross(u3, v3)[1]), ("det 3x3 coefficient", det(A3)), ("cofac 3x3 coefficient [2,0]", ufl.cofac(A3)[2, 0]),
